@@ -6,7 +6,7 @@ LEVEL = "proof"
 PROPERTIES_MODULE = "Properties.C09"
 COQ_TARGETS = ["Properties/C09.vo", "Model/Dispatch.vo"]
 THEOREMS = ["C09_source_flags", "C09_sketch_step", "C09_opt_densify", "C09_rev_densify", "C09_opt_terminates",
-            "C09_empty_reports", "C09_empty_never_fills", "C09_holds_streamed", "C09_end_sketch_idempotent"]
+            "C09_empty_reports", "C09_empty_never_fills", "C09_holds_streamed", "C09_end_sketch_idempotent", "C09_views_agree"]
 AXIOMS_ALLOWED = []
 TRANSLATORS = [("flags-dens", sklib.translate_flags_dens)]
 TRUSTED_BASE = [
@@ -23,7 +23,7 @@ ASSUMPTIONS = ["fairness of the concrete ChaCha12 target streams is not proved (
 
 
 def correspond(run):
-    n = 800 if run.tier == "quick" else 8000
+    n = 800 if run.depth == "quick" else 8000
     cases, codes = sklib.correspond_sk(run, n, "dens")
     if cases is None:
         return
